@@ -55,6 +55,43 @@ def ref_moments(n):
     return means, out
 
 
+def ref_moments_big(n, ks):
+    """closed-form reference for a few k at large n: the level weights are exact integers
+    ratios (a(a-1) C(n-a-1,k-2) over 2 C(n,k+1)), the hypoexponential moments and the sums
+    are carried in 80-digit arithmetic (exact rationals would need 1000-digit denominators).
+    Returns {k: (mean, var)} as mpmath numbers."""
+    import mpmath
+    with mpmath.workdps(80):
+        m = [None] * (n + 1)
+        v = [None] * (n + 1)
+        sm = mpmath.mpf(0)
+        sv = mpmath.mpf(0)
+        for a in range(n, 0, -1):
+            m[a] = sm
+            v[a] = sv
+            if a > 1:
+                r = mpmath.mpf(2) / (a * (a - 1))
+                sm = sm + r
+                sv = sv + r * r
+        out = {}
+        for k in ks:
+            if k == n:
+                out[k] = (m[1], v[1])
+                continue
+            den = mpmath.mpf(2 * comb(n, k + 1))
+            c = comb(n - 3, k - 2)
+            e1 = mpmath.mpf(0)
+            e2 = mpmath.mpf(0)
+            for a in range(2, n - k + 2):
+                w = mpmath.mpf(a * (a - 1) * c) / den
+                e1 += w * m[a]
+                e2 += w * (v[a] + m[a] * m[a])
+                mm = n - a - 1
+                c = c * (mm - (k - 2)) // mm if mm > 0 else 0
+            out[k] = (e1, e2 - e1 * e1)
+        return out
+
+
 def kingman_py(n):
     """independent reference: explicit Kingman jump chain on block-size multisets (as
     coq/model/Kingman.v), node-averaged mean and variance per k; exact rationals"""
